@@ -679,6 +679,7 @@ def run(rep):
     from rules import c01
     c01.r01w(rep, F, rule='R02k', pat=('/control/planners/',), frozen=6)
     c01.r01A(rep, F, rule='R02n', pat='/control/planners/sst/')
+    c03.r03y(rep, F, rule='R02p', names=('ompl::control::PDST::solve',))
     # R02m: stored controls stay replayable -- control::PlannerData::decoupleFromPlanner clones every edge control on every call (C09's R09n,
     # control clause, under C02's id)
     from rules import c09
